@@ -884,3 +884,122 @@ def unroll_literal_loops(tree: ast.Module) -> int:
     if u.count:
         ast.fix_missing_locations(tree)
     return u.count
+
+
+# ---------------------------------------------------------------- callee chosen by a branch
+def _chain_leaves(node: ast.If):
+    """leaf bodies of an if/elif/else chain: [(holder, field)]; None when there is no final else"""
+    out = [(node, "body")]
+    cur = node
+    while len(cur.orelse) == 1 and isinstance(cur.orelse[0], ast.If):
+        cur = cur.orelse[0]
+        out.append((cur, "body"))
+    if not cur.orelse:
+        return None
+    out.append((cur, "orelse"))
+    return out
+
+
+def _strip(stmts):
+    return [s for s in stmts if not isinstance(s, ast.Pass) and not (isinstance(s, ast.Expr) and isinstance(s.value, ast.Constant))]
+
+
+class CalleeSinker(ast.NodeTransformer):
+    """`if c: f = A  elif d: f = B  else: raise ..` followed by the one statement
+    that calls `f(..)` becomes the same chain with that statement in each branch
+    and the chosen function written out (`x = A(..)` / `x = B(..)`)."""
+
+    def __init__(self):
+        self.count = 0
+
+    def _function(self, node):
+        self.generic_visit(node)
+        loads: Dict[str, int] = {}
+        for n in _own_walk(node):
+            if isinstance(n, ast.Name) and isinstance(n.ctx, ast.Load):
+                loads[n.id] = loads.get(n.id, 0) + 1
+        self._blocks(node, loads)
+        return node
+
+    visit_FunctionDef = _function
+    visit_AsyncFunctionDef = _function
+
+    def _blocks(self, node, loads):
+        for fld in ("body", "orelse", "finalbody"):
+            b = getattr(node, fld, None)
+            if isinstance(b, list) and b and isinstance(b[0], ast.stmt):
+                setattr(node, fld, self._block(b, loads))
+                for s in getattr(node, fld):
+                    if not isinstance(s, (ast.FunctionDef, ast.AsyncFunctionDef, ast.ClassDef)):
+                        self._blocks(s, loads)
+        if isinstance(node, ast.Try):
+            for h in node.handlers:
+                h.body = self._block(h.body, loads)
+                for s in h.body:
+                    self._blocks(s, loads)
+
+    def _block(self, stmts, loads):
+        stmts = list(stmts)
+        i = 0
+        while i < len(stmts):
+            s = stmts[i]
+            if isinstance(s, ast.If):
+                r = self._try(stmts, i, loads)
+                if r is not None:
+                    stmts = r
+                    self.count += 1
+                    continue
+            i += 1
+        return stmts
+
+    def _try(self, stmts, i, loads):
+        chain = stmts[i]
+        leaves = _chain_leaves(chain)
+        if leaves is None:
+            return None
+        fname = None
+        picks = []
+        for holder, fld in leaves:
+            body = _strip(getattr(holder, fld))
+            if body and isinstance(body[-1], ast.Raise):
+                picks.append(None)
+                continue
+            if len(body) == 1 and isinstance(body[0], ast.Assign) and len(body[0].targets) == 1 and isinstance(body[0].targets[0], ast.Name) and isinstance(body[0].value, (ast.Name, ast.Attribute)) and _simple(body[0].value):
+                nm = body[0].targets[0].id
+                if fname is None:
+                    fname = nm
+                if nm != fname:
+                    return None
+                picks.append(body[0].value)
+                continue
+            return None
+        if fname is None or loads.get(fname, 0) != 1:
+            return None
+        for j in range(i + 1, len(stmts)):
+            t = stmts[j]
+            uses = [n for n in ast.walk(t) if isinstance(n, ast.Name) and n.id == fname]
+            if not uses:
+                if isinstance(t, (ast.FunctionDef, ast.AsyncFunctionDef, ast.ClassDef)):
+                    return None
+                continue
+            if not isinstance(t, (ast.Assign, ast.Expr, ast.Return, ast.AugAssign, ast.AnnAssign)) or len(uses) != 1:
+                return None
+            callsite = [c for c in ast.walk(t) if isinstance(c, ast.Call) and c.func is uses[0]]
+            if len(callsite) != 1:
+                return None
+            new = clone_ast(chain)
+            for (holder, fld), pick in zip(_chain_leaves(new), picks):
+                if pick is None:
+                    continue
+                st = _Rename({}, {fname: pick}).visit(clone_ast(t))
+                setattr(holder, fld, [st])
+            return stmts[:i] + stmts[i + 1 : j] + [new] + stmts[j + 1 :]
+        return None
+
+
+def sink_selected_callees(tree: ast.Module) -> int:
+    c = CalleeSinker()
+    c.visit(tree)
+    if c.count:
+        ast.fix_missing_locations(tree)
+    return c.count
